@@ -150,6 +150,7 @@ type Model struct {
 	Events    []Event    // oldest first
 	Hooks     []HookCall // oldest first
 	Ehooks    []HookCall // block-hook calls of entries syncs, oldest first
+	Closing   bool       // Subscriber.Close has begun (s.closing closed)
 	Panicked  bool
 	Ordered   bool
 	Regress   bool
